@@ -41,9 +41,9 @@ func BuildMapCodec(p CodecBuilder, registry CodecRegistry, typ reflect.Type, tag
 		return nil, fmt.Errorf("failed to find codec for map value %s. %w", typ.Elem().Name(), err)
 	}
 
-	if isProtoSlice(valueCodec) {
-		// The protobuf repeated form writes one value field per element,
-		// but a map entry holds a single value field
+	if isProtoSlice(valueCodec) || isProtoSlice(keyCodec) {
+		// The protobuf repeated form writes one field per element, but a map
+		// entry holds a single key field and a single value field
 		return nil, fmt.Errorf("maps of slices of structs or strings are not supported in the protobuf repeated form")
 	}
 
